@@ -170,7 +170,7 @@ def functions_of(parsed):
 
 TARGET_FILES = ["Target/Structured.v", "Target/LoopInit.v", "Target/LoopBound.v", "Target/ContinueForward.v",
                 "Target/SwitchForms.v", "Target/Desugar.v", "Target/IrInstance.v", "Target/GlslInstance.v", "Target/Examples.v",
-                "Target/Shapes.v"]
+                "Target/Shapes.v", "Target/ContinueForwardConv.v", "Target/SwitchFormsConv.v", "Target/ExamplesConv.v"]
 
 
 def build_exe():
